@@ -195,6 +195,8 @@ def family(f):
         return "SDS"
     if n.startswith("PAF/PCM_24"):
         return "PAF24"
+    if n.startswith("RAW/DWVW"):
+        return "RAW/DWVW"
     return n
 
 
